@@ -592,6 +592,9 @@ impl World {
                             responded = Some(m.from);
                             if !m.reject {
                                 if let Some(f) = l.flow.get_mut(&m.from) {
+                                    if m.index > f.acked {
+                                        f.acked = m.index;
+                                    }
                                     while f.window.front().map(|x| *x <= m.index).unwrap_or(false) {
                                         f.window.pop_front();
                                     }
@@ -631,6 +634,7 @@ impl World {
                     window: Default::default(),
                     bound: default_cap,
                     probe_out: false,
+                    acked: 0,
                 });
                 if pre_st != Some(*st) || !same_lead {
                     f.window.clear();
@@ -704,6 +708,17 @@ impl World {
                 MessageType::MsgHeartbeat => {
                     ctx.stat(Stat::HeartbeatsChecked);
                     let matched = post_prs.iter().find(|p| p.0 == m.to).map(|p| p.2).unwrap_or(0);
+                    let acked = self.live(i).unwrap().flow.get(&m.to).map(|f| f.acked).unwrap_or(0);
+                    if m.commit > acked {
+                        ctx.v(
+                            "C13",
+                            "heartbeat advertises commit beyond what the follower acknowledged",
+                            format!(
+                                "leader {} -> {}: heartbeat commit {} but the follower acknowledged only up to {} in this term (leader's matched {})",
+                                id, m.to, m.commit, acked, matched
+                            ),
+                        );
+                    }
                     if m.commit > post.committed || m.commit > matched {
                         ctx.v(
                             "C13",
@@ -737,6 +752,7 @@ impl World {
             window: Default::default(),
             bound: default_cap,
             probe_out: false,
+            acked: 0,
         });
         if f.window.is_empty() {
             f.bound = v;
@@ -1201,6 +1217,13 @@ impl World {
                         "C15",
                         "replication resumes before the snapshot index",
                         format!("leader {} -> {}: next_idx {} after snapshot {} reported done", id, to, np.next_idx, p.pending_snapshot),
+                    );
+                }
+                if np.matched != p.matched {
+                    ctx.v(
+                        "C15",
+                        "snapshot status report changed the follower's acknowledged index",
+                        format!("leader {} -> {}: matched {} -> {} on report_snapshot({})", id, to, p.matched, np.matched, ok),
                     );
                 }
                 if np.next_idx < np.matched + 1 {
